@@ -72,12 +72,22 @@ TARGETS += [
          tiefile="block_header", fallback="fun sha256 v p m t b n => of_option (Block.get_block_hash sha256 (Block.Build_header v p m t b n))"),
 ]
 
+TARGETS += [
+    dict(coq="src_txout_to_bytes", file="bitcoinutils/transactions.py", qual="TxOutput.to_bytes", params=[],
+         selfattrs=[("amount", "int"), ("script_pubkey", "script")], ret="bytes", tiefile="tx_parts",
+         fallback="fun a s => of_option (Tx.txout_to_bytes (Tx.Build_txout a s))"),
+    dict(coq="src_txin_to_bytes", file="bitcoinutils/transactions.py", qual="TxInput.to_bytes", params=[],
+         selfattrs=[("txid", "hexbytes"), ("txout_index", "int"), ("script_sig", "script"), ("sequence", "bytes")], ret="bytes", tiefile="tx_parts",
+         fallback="fun t v s q => of_option (Tx.txin_to_bytes (Tx.Build_txin t v s q))"),
+]
+
 COQTY = {"int": "Z", "bytes": "bytes", "hexbytes": "bytes", "bool": "bool", "int*int": "(Z * Z)", "unit": "unit",
          "utf8": "bytes",          # a str that the code only ever .encode("utf-8")s: the model takes those bytes
          "str": "string",          # a str used as a tag: str.encode() of an ASCII tag is Sighash.str_bytes
          "script": "(list tok)",
          "hexint": "Z"}            # an int returned as f"{x:064x}": the integer that is printed   # a Script object: its .to_bytes() is the model's Script.to_bytes (tied by C02)
 STRUCT = {"<B": 1, "<H": 2, "<I": 4, "<L": 4, "<Q": 8, "B": 1}
+STRUCT_SIGNED = {"<i": 4, "<l": 4, "<q": 8}
 
 
 METHODS = {}
@@ -224,6 +234,18 @@ class Tr:
                 if ta in ("int", "bytes", "bool"):
                     return p, "false" if op is ast.Is else "true", "bool"
                 raise Unsupported("is None on %s" % ta)
+            # X == 64 * "0"  on a value held as bytes (hex transport): 32 zero bytes
+            rz = e.comparators[0]
+            if (op in (ast.Eq, ast.NotEq) and isinstance(rz, ast.BinOp) and isinstance(rz.op, ast.Mult)
+                    and {type(rz.left), type(rz.right)} == {ast.Constant}
+                    and sorted([repr(type(rz.left.value)), repr(type(rz.right.value))]) == sorted([repr(int), repr(str)])):
+                nrep = rz.left.value if isinstance(rz.left.value, int) else rz.right.value
+                ch = rz.right.value if isinstance(rz.left.value, int) else rz.left.value
+                p1, a, ta = self.expr(e.left)
+                if ta == "bytes" and ch == "0" and nrep % 2 == 0 and 0 <= nrep <= 128:
+                    t_ = "(py_bytes_eq %s (repeat 0 %d))" % (a, nrep // 2)
+                    return p1, t_ if op is ast.Eq else "(negb %s)" % t_, "bool"
+                raise Unsupported("comparison with a repeated string")
             p1, a, ta = self.expr(e.left); p2, b, tb = self.expr(e.comparators[0])
             if ta == "int" and tb == "int":
                 m = {ast.Lt: "(%s <? %s)", ast.LtE: "(%s <=? %s)", ast.Gt: "(%s >? %s)", ast.GtE: "(%s >=? %s)",
@@ -335,6 +357,14 @@ class Tr:
             if names and all(n in want for n in names) and ta in want.values():
                 return p, "true" if ta in [want[n] for n in names] else "false", "bool"
             raise Unsupported("isinstance")
+        # h_to_b(<script>.script[0]): the first element of a script taken as raw hex data (coinbase scriptSig)
+        if (isinstance(f, ast.Name) and f.id == "h_to_b" and len(e.args) == 1 and isinstance(e.args[0], ast.Subscript)
+                and isinstance(e.args[0].slice, ast.Constant) and e.args[0].slice.value == 0
+                and isinstance(e.args[0].value, ast.Attribute) and e.args[0].value.attr == "script"):
+            p, a, ta = self.expr(e.args[0].value.value)
+            if ta != "script": raise Unsupported(".script of %s" % ta)
+            t = self.fresh()
+            return p + [("opt", t, "Tx.coinbase_script_bytes %s" % a)], t, "bytes"
         # hex transport: h_to_b(x) on a hexbytes value and b_to_h(x) on bytes are the identity on the byte string
         if isinstance(f, ast.Name) and f.id in ("h_to_b", "b_to_h") and len(e.args) == 1:
             p, a, ta = self.expr(e.args[0])
@@ -394,6 +424,11 @@ class Tr:
             return p, "(py_from_bytes_%s %s)" % ("le" if bo.value == "little" else "be", a), "int"
         # struct.pack(fmt, x) / struct.unpack(fmt, b)
         if isinstance(f, ast.Attribute) and isinstance(f.value, ast.Name) and f.value.id == "struct" and f.attr in ("pack", "unpack"):
+            if (len(e.args) == 2 and isinstance(e.args[0], ast.Constant) and e.args[0].value in STRUCT_SIGNED and f.attr == "pack"):
+                p, a, ta = self.expr(e.args[1])
+                if ta != "int": raise Unsupported("struct.pack of %s" % ta)
+                t = self.fresh()
+                return p + [("opt", t, "py_pack_le_signed %d %s" % (STRUCT_SIGNED[e.args[0].value], a))], t, "bytes"
             if len(e.args) != 2 or not isinstance(e.args[0], ast.Constant) or e.args[0].value not in STRUCT:
                 raise Unsupported("struct format")
             size = STRUCT[e.args[0].value]
@@ -588,7 +623,7 @@ def translate(target, repo, consts, known):
         tr.env[p] = (p + "_", "bytes" if ty == "hexbytes" else ty)
         binders.append("(%s_ : %s)" % (p, COQTY[ty]))
     for a, ty in target.get("selfattrs", []):
-        tr.env["self." + a] = ("self_" + a, ty)
+        tr.env["self." + a] = ("self_" + a, "bytes" if ty == "hexbytes" else ty)
         binders.append("(self_%s : %s)" % (a, COQTY[ty]))
     body = tr.stmts(list(fn.body))
     rty = COQTY[target["ret"]] if target["ret"] != "attrs" else "(" + " * ".join("option " + COQTY[ty] for _, ty in target["initattrs"]) + ")"
